@@ -1391,7 +1391,8 @@ class _BMeta(type):
 
     def __call__(cls, *a):
         if not a:
-            return _bytes()
+            # bytes().join(parts) must accept symbolic parts
+            return SymBytes([]) if Engine.cur is not None else _bytes()
         if _len(a) == 1 and _isinstance(a[0], (_bytes, _bytearray)):
             return _bytes(a[0])
         if _len(a) == 1:
